@@ -283,14 +283,24 @@ pub fn sweep_c14(out: &mut RunOut) -> u64 {
         let mut j = |cx: &DeliveryCtx, out: &mut RunOut| judge_c14(cx, out);
         n += run(&b, planned, &mix, &mut j, out);
     }
-    // real provider latency (1.2 s of wall-clock time) on requests that are half a second from the
-    // edge of the window: the outcome is the one an immediate provider gives (control twin)
-    for seed in 0..2u64 {
+    n
+}
+
+/// C14, both tiers: real provider latency (1.2 s of wall-clock time) on requests that are half a
+/// second from either edge of the window — the outcome is the one an immediate provider gives
+/// (control twin). The simulator's clock cannot expose a library that consults a real one.
+pub fn pinned_c14(out: &mut RunOut) -> u64 {
+    let mut mix = Mix::base();
+    mix.req.big_body_one_in = 0;
+    mix.control_twin = true;
+    let mut n = 0;
+    for seed in 0..1u64 {
         let b = base(seed, &mix);
         let mut planned = Vec::new();
         for off in [-(refm::WINDOW_NS - refm::NS / 2), refm::WINDOW_NS - refm::NS / 2] {
             let mut sc = ProvScript::default();
             sc.real_sleep_ms = 1200;
+            sc.answer_pending = 1;
             planned.push(plan(&b, b.msg.clone(), b.msg.auth.instant_ns - off, sc));
         }
         let mut j = |cx: &DeliveryCtx, out: &mut RunOut| {
@@ -368,4 +378,31 @@ pub fn sweep_c12(out: &mut RunOut) -> u64 {
         }
     }
     n
+}
+
+/// C18, both tiers: "a pure function of the request, the server time, the configuration and the
+/// provider's answer" — the same request with a provider that answers at once and with one that
+/// takes 1.2 s of real time to give the same answer.
+pub fn pinned_c18(out: &mut RunOut) -> u64 {
+    let mut mix = Mix::base();
+    mix.req.big_body_one_in = 0;
+    mix.control_twin = true;
+    let b = base(3, &mix);
+    let mut planned = Vec::new();
+    for off in [-(refm::WINDOW_NS - refm::NS / 2), refm::WINDOW_NS - refm::NS / 2] {
+        let mut sc = ProvScript::default();
+        sc.real_sleep_ms = 1200;
+        sc.answer_pending = 1;
+        planned.push(plan(&b, b.msg.clone(), b.msg.auth.instant_ns - off, sc));
+    }
+    let mut j = |cx: &DeliveryCtx, out: &mut RunOut| {
+        out.probe("real_provider_latency");
+        if let Some(ctl) = cx.control {
+            let (a, c) = (crate::direct2::outcome_signature(cx.out).0, crate::direct2::outcome_signature(ctl).0);
+            if !crate::direct2::same_outcome(&a, &c) {
+                out.violate("C18", "same-outcome-whatever-the-provider-latency", format!("with a provider that takes 1.2 s of real time: {}; with an immediate provider giving the same answer: {}; request {}", a, c, cx.wire.describe()));
+            }
+        }
+    };
+    run(&b, planned, &mix, &mut j, out)
 }
